@@ -10,6 +10,8 @@ import RosuModel.Model.StrainsWire
 import RosuModel.Model.StarsWire
 import RosuModel.Model.GenStateWire
 import RosuModel.Model.SafetyWire
+import RosuModel.Model.SuspicionWire
+import RosuModel.Model.StackingWire
 import RosuModel.Model.LifeWire
 import RosuModel.Model.FiniteWire
 
@@ -52,6 +54,9 @@ def handle (line : String) : String :=
   | ["BAN", g, s, e, fuel] => Safety.Wire.handleBAN g s e fuel
   | ["BANX", s, e] => Safety.Wire.handleBANX s e
   | ["TKH", p, q, d] => Safety.Wire.handleTKH p q d
+  | ["SUSP", mode, objs] => Susp.Wire.handleSUSP mode objs
+  | ["SUSPX", mode, objs] => Susp.Wire.handleSUSPX mode objs
+  | ["STK", which, thr, objs] => Stack.Wire.handleSTK which thr objs
   | ["LIFE", mode, objs, sig, hist] => Lifetime.handleLife mode objs sig hist
   | "GSQ" :: mode :: args => GenState.handleGSQ mode args
   | "C09" :: args => Finite.handleFinite args
